@@ -1,5 +1,5 @@
 #!/bin/sh
 # C13: regenerate the component/parameter table from the SSA of createResources, then decide the harness
 mkdir -p /verif/.work/C13
-/verif/bin/symgo c13gen -out /verif/.work/C13/zz_verif_c13_gen.go -json /verif/.work/C13/uses.json || { echo "ENGINE-ERROR: c13gen failed"; exit 2; }
-exec /verif/bin/symgo run -id C13 -tier "$1"
+${SYMGO:-/verif/bin/symgo} c13gen -out /verif/.work/C13/zz_verif_c13_gen.go -json /verif/.work/C13/uses.json || { echo "ENGINE-ERROR: c13gen failed"; exit 2; }
+exec ${SYMGO:-/verif/bin/symgo} run -id C13 -tier "$1"
